@@ -1,14 +1,16 @@
-From Coq Require Import ZArith Bool List.
-From Verif Require Import Base.Run C05.Model C05.Spec.
+From Coq Require Import ZArith Bool List String.
+From Verif Require Import Base.Run C05.Model C05.Spec C05.Time.
 Import ListNotations.
 Open Scope Z_scope.
 
-Definition case := (input * verdict)%type.
+(* two kinds of case: a whole Response through the acceptance path, or one time-stamp TEXT through
+   calendar.timegm(time_util.str_to_time(text)) (observed: the seconds, or the exception class) *)
+Inductive case := CAccept (x : input) (v : verdict) | CTime (s : string) (r : tres).
 
 Definition mk (now : Z) (atd : option Z) (cnb cnooa snb snooa sess : option stamp) (issue : stamp)
   (obs : verdict) : case :=
-  ({| now := now; atd := atd;
-      t := {| cnb := cnb; cnooa := cnooa; snb := snb; snooa := snooa; sess := sess; issue := issue |} |}, obs).
+  CAccept {| now := now; atd := atd;
+      t := {| cnb := cnb; cnooa := cnooa; snb := snb; snooa := snooa; sess := sess; issue := issue |} |} obs.
 
 Definition verdict_eqb (a b : verdict) : bool :=
   match a, b with
@@ -17,8 +19,26 @@ Definition verdict_eqb (a b : verdict) : bool :=
   | _, _ => false
   end.
 
-Definition agrees (c : case) : bool := verdict_eqb (accept (fst c)) (snd c).
-Definition holds (c : case) : bool := spec_b (fst c) (snd c).
+Definition agrees (c : case) : bool :=
+  match c with
+  | CAccept x v => verdict_eqb (accept x) v
+  | CTime s r => tres_eqb (str_to_secs s) r
+  end.
+(* the property speaks about acceptance; for a text case the spec is what C05 needs from the reader: a text
+   that denotes a calendar date and time of day in the strptime format is read as exactly that second *)
+Definition holds (c : case) : bool :=
+  match c with
+  | CAccept x v => spec_b x v
+  | CTime s r => match strptime s, r with
+                 | Some f, TVal z => Z.eqb z (timegm f)     (* a well-formed calendar text reads as that second *)
+                 | Some _, _ => false
+                 | None, _ => true
+                 end
+  end.
 Definition cls (c : case) : nat := 0.
 Definition run := run_cases agrees holds cls.
-Definition explain (c : case) := (accept (fst c), sound_b (fst c) (snd c), strictly_inside_b (fst c)).
+Definition explain (c : case) :=
+  match c with
+  | CAccept x v => (Some (accept x, sound_b x v, strictly_inside_b x), None)
+  | CTime s r => (None, Some (str_to_secs s, strptime s, frag s))
+  end.
